@@ -12,10 +12,8 @@ PoisonPill / delivery envelopes).  The third-party encoders are hypotheses (`Pro
 `Agree`), each with an `example` instance.
 
 Reading of "chosen … is the one registered for its type": the rule documented on `WithClientSerializers`
-("1. exact concrete type, 2. first registered interface the message implements").  The code makes ONE pass in
-registration order, so an exact-type registration that comes after a matching interface entry is shadowed — and
-the `proto.Message` entry is always seeded first.  `C25_full` is therefore refuted (`C25_refuted`, finding
-C25-F1); `C25_partial` is the full statement under the decidable guard `shadowed es m = false`.
+("1. exact concrete type, 2. first registered interface the message implements").  Since fix C25-F1
+`resolveSerializer` implements exactly that rule (`resolve_eq_doc`), and `C25_holds` proves the full statement.
 -/
 import GoaktVerif.Model.C25
 import GoaktVerif.Model.C25Wire
@@ -102,14 +100,19 @@ example : RegLaw idReg [7] [7] := ⟨rfl, by decide, rfl, rfl, by decide⟩
 
 variable {M : Type}
 
-/-- the code's selection rule: the chosen entry is the first one (registration order) whose type test passes -/
-theorem resolve_first (es : List (Entry M)) (m : M) (i : Nat) (h : resolve es m = some i) :
-    ∃ e : Entry M, es[i]? = some e ∧ e.accepts m = true ∧
-      ∀ (j : Nat) (e' : Entry M), j < i → es[j]? = some e' → e'.accepts m = false := by
-  obtain ⟨j, e, hi, hj, ha, hb⟩ := resolveFrom_some es m 0 i h
-  have : i = j := by omega
-  subst this
-  exact ⟨e, hj, ha, hb⟩
+/-- the chosen index is that of a registered entry whose type test passes -/
+theorem resolve_accepts (es : List (Entry M)) (m : M) (i : Nat) (h : resolve es m = some i) :
+    ∃ e : Entry M, es[i]? = some e ∧ e.accepts m = true :=
+  resolveFrom_accepts es [] es m none i rfl (by intro j hj; cases hj) h
+
+/-- the code's selection rule, part 1: an exact-type entry that accepts the message wins wherever it sits
+    (the first such entry is chosen) -/
+theorem resolve_exact_wins (es : List (Entry M)) (m : M) (j : Nat) (e : Entry M)
+    (hj : es[j]? = some e) (ha : e.accepts m = true) (hx : e.exact = true)
+    (hfirst : ∀ (j' : Nat) (e' : Entry M), j' < j → es[j']? = some e' → ¬ (e'.accepts m = true ∧ e'.exact = true)) :
+    resolve es m = some j := by
+  have := resolveFrom_exact es m 0 none j e hj ha hx hfirst
+  simpa [resolve] using this
 
 theorem resolve_none (es : List (Entry M)) (m : M) :
     resolve es m = none ↔ ∀ e ∈ es, e.accepts m = false := resolveFrom_none es m 0
@@ -126,7 +129,7 @@ theorem send_bytes (es : List (Entry M)) (m : M) (d : Bytes) (h : sendSerialize 
   cases hr : resolve es m with
   | none => simp [hr] at h
   | some i =>
-    obtain ⟨e, he, ha, _⟩ := resolve_first es m i hr
+    obtain ⟨e, he, ha⟩ := resolve_accepts es m i hr
     simp only [hr, he] at h
     exact ⟨i, e, rfl, he, ha, h⟩
 
@@ -174,10 +177,11 @@ example : Agree [honest] [5] 5 := by
   simp [honest] at h
   exact h.symm
 
-/-! ### documented rule vs implemented rule -/
+/-! ### documented rule = implemented rule (since fix C25-F1) -/
 
-theorem resolveDoc_unshadowed (es : List (Entry M)) (m : M) (h : shadowed es m = false) :
-    resolveDoc es m = resolve es m := resolveDocFrom_unshadowed es m 0 h
+/-- the code's selection rule, part 2: it IS the rule documented on `WithClientSerializers` -/
+theorem resolve_eq_doc (es : List (Entry M)) (m : M) : resolve es m = resolveDoc es m :=
+  resolveFrom_eq_doc es m 0 none
 
 /-- The full property over the dispatch: for every table, registry, message and frame —
     (a) round trip under the encoder laws, (b) the chosen serializer is the one the documented rule names,
@@ -189,30 +193,17 @@ def C25_full : Prop :=
     ∧ resolve es m = resolveDoc es m
     ∧ ((∀ e ∈ es, e.accepts m = false) → sendSerialize es m = .error .noSerializer)
 
-/-- witness: the seeded interface entry (all proto messages) followed by an exact-type registration -/
+theorem C25_holds : C25_full := fun es reg m =>
+  ⟨fun d hs hrt hag => dispatch_roundtrip reg es m d hs hrt hag, resolve_eq_doc es m, send_unsupported es m⟩
+
+/-- the former witness of C25-F1: the seeded interface entry no longer shadows an exact-type registration -/
 def ifaceEntry : Entry Nat := { accepts := fun _ => true, exact := false, ser := fun m => .ok [0, m],
                                 deser := fun _ => .error .custom, isProto := true }
 def exactEntry : Entry Nat := { accepts := fun m => m == 7, exact := true, ser := fun m => .ok [1, m],
                                 deser := fun _ => .error .custom, isProto := false }
 
-theorem C25_refuted : ¬ C25_full := by
-  intro h
-  have := (h [ifaceEntry, exactEntry] (fun _ => false) 7).2.1
-  revert this
-  decide
-
-/-- the property under the guard "no accepting interface entry precedes an accepting exact-type entry" -/
-theorem C25_partial (es : List (Entry M)) (reg : Bytes → Bool) (m : M) (hg : shadowed es m = false) :
-    (∀ d, sendSerialize es m = .ok d → (∀ e ∈ es, e.ser m = .ok d → e.deser d = .ok m) → Agree es d m →
-        dispDeserialize reg es d = .ok m)
-    ∧ resolve es m = resolveDoc es m
-    ∧ ((∀ e ∈ es, e.accepts m = false) → sendSerialize es m = .error .noSerializer) :=
-  ⟨fun d hs hrt hag => dispatch_roundtrip reg es m d hs hrt hag,
-   (resolveDoc_unshadowed es m hg).symm,
-   send_unsupported es m⟩
-
-example : shadowed [exactEntry, ifaceEntry] 7 = false := by decide
-example : shadowed [ifaceEntry, exactEntry] 7 = true := by decide
+example : resolve [ifaceEntry, exactEntry] 7 = some 1 := by decide
+example : resolve [ifaceEntry, exactEntry] 8 = some 0 := by decide
 
 /-! ## 3. the internal envelopes -/
 
